@@ -159,7 +159,7 @@ Record h_ok (c : hcase) : Prop := {
      within_slack (h_env c) (h_slack c) a /\
      (* a timeout error only once the timeout has elapsed *)
      (a = ATimeout -> (h_timeout c <= ho_latency (h_obs c))%Z);
-  hk_latency : (ho_latency (h_obs c) <= 50 * (ret_time (h_env c) + 20))%Z
+  hk_latency : (ho_latency (h_obs c) <= 50 * (ret_time (h_env c) + 20000))%Z
 }.
 
 Theorem check_h_spec c : check_h c = [] <-> h_ok c.
@@ -205,7 +205,7 @@ Record g_ok (c : gcase) : Prop := {
   gk_all : (countN 0 (go_arms (g_obs c)) + countN 2 (go_arms (g_obs c)) + go_hung (g_obs c) = g_n c)%N;   (* everybody else: the timeout error *)
   gk_delivered : go_delivered_ok (g_obs c) = true;
   gk_early : go_early (g_obs c) = false;
-  gk_latency : (go_latency (g_obs c) <= 50 * (g_timeout c + 20))%Z
+  gk_latency : (go_latency (g_obs c) <= 50 * (g_timeout c + 20000))%Z
 }.
 Theorem check_g_spec c : check_g c = [] <-> g_ok c.
 Proof.
